@@ -80,6 +80,7 @@ def install() -> None:
     setup_env()
     import warnings
 
+    warnings.simplefilter("ignore")  # checks never rely on warnings; keep their output readable
     warnings.filterwarnings("ignore", category=FutureWarning, module="pystencils")
     warnings.filterwarnings("ignore", category=UserWarning, module="pystencils")
     warnings.filterwarnings("ignore", message=".*option of CreateKernelConfig.*")
